@@ -28,7 +28,9 @@ MODELLED = [
     "ClaytonCopula.__call__, _condition_distribution_2d, _inverse_conditional_distribution_2d, x_first_derivative (d=2): hand models "
     "over R (Rpower), tied by Interval case lemmas |model - implementation| <= 1e-9 rel.",
     "np.power(0, theta) = 0 (eps = 0 or x = +-inf in the conditional distribution): not representable by Rpower; covered by the "
-    "implementation oracle (limits 0 / 1, monotone, no NaN) only",
+    "implementation oracle (eps = 0 and x = +-inf are in the swept lists: values in [0,1], monotone, limits 0 / 1, no NaN) only",
+    "generic LevyCopula.inverse_conditional_distribution (Newton without x0: raises for the independent copula) and "
+    "levycopulaseries.py (np.sum of a generator under numpy 2.5): outside C11's statement (Clayton overrides the inverse); observations",
     "argument vectors whose entries are all infinite: implementation returns +-inf (nan for Clayton with eta in {0,1}); outside the model",
     "LevyCopula.inverse_conditional_distribution (generic Newton solver), FrankLevyCopula: not offered by the model helpers, not covered",
 ]
@@ -103,6 +105,19 @@ def erlit(x) -> str:
 
 def tol_of(v) -> Fraction:
     return Fraction(max(1e-12, 1e-9 * abs(v))).limit_denominator(10 ** 18)
+
+
+def mixed_partial_mp(th, et, us):
+    """d^d F / du_1..du_d of the Clayton Levy copula, from its formula, by mpmath differentiation at 40 digits (accurate to ~1e-25)"""
+    import mpmath as mp
+    mp.mp.dps = 40
+    TH, ET, d = mp.mpf(th), mp.mpf(et), len(us)
+    neg = sum(1 for u in us if u < 0) % 2 == 1
+    g = -(1 - ET) if neg else ET
+
+    def F(*xs):
+        return mp.mpf(2) ** (2 - d) * sum(abs(x) ** (-TH) for x in xs) ** (-1 / TH) * g
+    return float(mp.diff(F, tuple(mp.mpf(u) for u in us), (1,) * d))
 
 
 def cop_fun(cop):
@@ -254,7 +269,7 @@ def correspond(res):
                     viol("negative (or nan) volume of a rectangle", kind="increasing", copula=desc, a=list(a), b=list(b), got=v)
         # ---- conditional distribution: a distribution function in x, limits, inverse -----------------------------
         xs = [-INF, -1e300, -1e12, -50.0, -3.0, -1.25, -0.5, -1e-3, -1e-9, 1e-9, 1e-3, 0.25, 1.0, 2.5, 40.0, 1e12, 1e300, INF]
-        for eps in (-7.5, -1.0, -0.02, 0.02, 0.6, 12.0):
+        for eps in (-7.5, -1.0, -0.02, 0.0, 0.02, 0.6, 12.0):
             vals = []
             for x in xs:
                 with np.errstate(all="ignore"):
@@ -263,7 +278,7 @@ def correspond(res):
                 res.count(("cond", str(desc), eps, x), kind="clayton conditional distribution")
                 if not (0.0 - 1e-12 <= v <= 1.0 + 1e-12):
                     viol("conditional distribution outside [0,1] (or nan)", kind="cond", copula=desc, eps=eps, x=x, got=v)
-                if math.isfinite(x) and abs(x) < 1e6 and math.isfinite(v) and len(iv_cases) < 100000 and abs(x) >= 1e-3 and rng.random() < (0.25 if tier == "quick" else 1.0):
+                if eps != 0 and math.isfinite(x) and abs(x) < 1e6 and math.isfinite(v) and len(iv_cases) < 100000 and abs(x) >= 1e-3 and rng.random() < (0.25 if tier == "quick" else 1.0):
                     iv_cases.append(f"Rabs (clayton_cond {TH} {ET} {rlit(eps)} {rlit(x)} - {rlit(v)}) <= {rlit(tol_of(v))}")
             # monotone on each side of 0 with a jump at 0 of the right sign; limits 0 and 1
             good = all(math.isfinite(v) for v in vals)
@@ -272,7 +287,7 @@ def correspond(res):
                 viol("conditional distribution is not non-decreasing", kind="cond_mono", copula=desc, eps=eps, x=[xs[i], xs[i + 1]], got=[vals[i], vals[i + 1]])
             if good and (abs(vals[0]) > 1e-12 or abs(vals[-1] - 1) > 1e-12):
                 viol("conditional distribution does not have the limits 0 and 1", kind="cond_limits", copula=desc, eps=eps, got=[vals[0], vals[-1]])
-            if 0 < et < 1:
+            if 0 < et < 1 and eps != 0:
                 for x in (-3.0, -1.25, -0.5, -1e-3, 1e-3, 0.25, 1.0, 2.5, 40.0):
                     with np.errstate(all="ignore"):
                         u = float(cop.conditional_distribution(eps, np.array([x]))[0])
@@ -284,38 +299,43 @@ def correspond(res):
                              eps=eps, x=x, u=u, got=back)
                     if math.isfinite(back) and lost > 1e-3 and rng.random() < (0.3 if tier == "quick" else 1.0):
                         iv_cases.append(f"Rabs (clayton_inv {TH} {ET} {rlit(eps)} {rlit(u)} - {rlit(back)}) <= {rlit(tol_of(back) * 1000)}")
-        # ---- mixed derivative: finite differences of the implementation's copula --------------------------------
-        pts2 = [(1.5, 0.8), (-1.2, 0.4), (0.3, -2.0), (-0.5, -0.7), (2.5, 2.5)]
-        for (u, v) in pts2:
+        # ---- mixed derivative: closed-form mixed partial (mpmath, 40 digits, independent of the implementation) ---------
+        #      + finite differences of the implementation's own copula to tie that closed form to copula(us)
+        for us in [(1.5, 0.8), (-1.2, 0.4), (0.3, -2.0), (-0.5, -0.7), (2.5, 2.5), (1.0, 1.1, 0.9), (-1.2, 1.1, 1.3), (-0.9, -1.0, 1.05), (1.5, 0.8, 0.6)]:
+            d = len(us)
             with np.errstate(all="ignore"):
-                xfd = float(cop.x_first_derivative(np.array([u, v])))
-            iv_cases.append(f"Rabs (clayton_xderiv2 {TH} {ET} {rlit(u)} {rlit(v)} - {rlit(xfd)}) <= {rlit(tol_of(xfd))}")
-            hu, hv = 1e-3 * abs(u), 1e-3 * abs(v)
-            F = lambda x, y: float(cop(np.array([x, y])))
-            d2 = (F(u + hu, v + hv) - F(u + hu, v - hv) - F(u - hu, v + hv) + F(u - hu, v - hv)) / (4 * hu * hv)
-            res.count(("xfd", str(desc), u, v), kind="clayton mixed derivative d=2")
-            if et in (0.0, 1.0) and abs(d2) < 1e-12:
-                continue
-            claim = d2 * u * v
-            if not abs(xfd - claim) <= 1e-4 * max(abs(claim), abs(xfd)):
-                viol("x_first_derivative is not the mixed partial derivative times the product of its arguments", kind="xfd", finding="F-C11-1",
-                     copula=desc, u=[u, v], x_first_derivative=xfd, mixed_partial_fd=d2, mixed_partial_times_product=claim,
-                     equals_signed_mixed_partial=bool(abs(xfd - math.copysign(1, u * v) * d2) <= 1e-4 * abs(xfd)))
-        for (u, v, w) in [(1.0, 1.1, 0.9), (-1.2, 1.1, 1.3), (-0.9, -1.0, 1.05), (1.5, 0.8, 0.6)]:
-            with np.errstate(all="ignore"):
-                xfd = float(cop.x_first_derivative(np.array([u, v, w])))
-            h = [1e-2 * abs(t) for t in (u, v, w)]
+                xfd = float(cop.x_first_derivative(np.array(us)))
+            if d == 2:
+                iv_cases.append(f"Rabs (clayton_xderiv2 {TH} {ET} {rlit(us[0])} {rlit(us[1])} - {rlit(xfd)}) <= {rlit(tol_of(xfd))}")
+            D = mixed_partial_mp(th, et, us)
+            res.count(("xfd", str(desc), us), kind=f"clayton mixed derivative d={d}")
+            # tie D to the implementation's copula by a central finite difference (coarse: 1e-3 where it is well conditioned)
+            h = [(1e-3 if d == 2 else 1e-2) * abs(t) for t in us]
             F = lambda p: float(cop(np.array(p)))
-            d3 = sum(s1 * s2 * s3 * F((u + s1 * h[0], v + s2 * h[1], w + s3 * h[2])) for s1 in (1, -1) for s2 in (1, -1) for s3 in (1, -1)) / (8 * h[0] * h[1] * h[2])
-            res.count(("xfd3", str(desc), u, v, w), kind="clayton mixed derivative d=3")
-            if abs(d3) < 1e-4 or abs(xfd) < 1e-4:
-                res.bump("xfd3_skipped_ill_conditioned_finite_difference", 1)   # third difference of a nearly flat function: noise
+            fd = sum(math.prod(sg) * F(tuple(u + s * hh for u, s, hh in zip(us, sg, h))) for sg in itertools.product((1, -1), repeat=d)) / math.prod(2 * hh for hh in h)
+            if abs(D) > 1e-3 and not abs(fd - D) <= (1e-3 if d == 2 else 2e-2) * abs(D):
+                viol("finite differences of copula(us) disagree with the closed-form mixed partial of the Clayton formula", kind="xfd_fd", copula=desc,
+                     u=list(us), finite_difference=fd, closed_form=D)
+            if D == 0.0 and xfd == 0.0:
                 continue
-            claim = d3 * u * v * w
-            if not abs(xfd - claim) <= 5e-3 * max(abs(claim), abs(xfd)):
+            claim = D * math.prod(us)
+            if not abs(xfd - claim) <= 1e-9 * max(abs(claim), abs(xfd)):
                 viol("x_first_derivative is not the mixed partial derivative times the product of its arguments", kind="xfd", finding="F-C11-1",
-                     copula=desc, u=[u, v, w], x_first_derivative=xfd, mixed_partial_fd=d3, mixed_partial_times_product=claim,
-                     equals_signed_mixed_partial=bool(abs(xfd - math.copysign(1, u * v * w) * d3) <= 5e-3 * abs(xfd)))
+                     copula=desc, u=list(us), x_first_derivative=xfd, mixed_partial=D, mixed_partial_times_product=claim)
+        # a zero entry: the code returns 0 (the copula is identically 0 on the axes)
+        for us in ((0.0, 1.0), (2.0, 0.0), (0.0, 0.0), (1.0, 0.0, -2.0)):
+            v = float(cop.x_first_derivative(np.array(us)))
+            res.count(("xfd0", str(desc), us), kind="clayton mixed derivative with a zero entry")
+            if v != 0:
+                viol("x_first_derivative with a zero argument is not 0", kind="xfd_zero", copula=desc, u=list(us), got=v)
+
+    # the dependent copula's conditional_distribution (counts the +inf entries of x): exercised, values 0 / 1 / 2
+    depc = CM.make_copula(["dep"])
+    for x, want in ((np.array([1.0]), 0), (np.array([INF]), 1), (np.array([INF, INF]), 2), (np.array([-INF, 3.0]), 0)):
+        got = depc.conditional_distribution(0.5, x)
+        res.count(("dep-cond", tuple(x)), kind="dependent conditional distribution")
+        if got != want:
+            viol("DependentComponentsCopula.conditional_distribution does not count the +inf entries", kind="dep_cond", x=[float(t) for t in x], got=int(got))
 
     # ============ Coq side ======================================================================================
     res.case_lemmas += len(groups)
@@ -366,17 +386,19 @@ def _interval_cases(res, stmts, shard=60):
 
 def matches_known(v, known):
     """F-C11-1 absorbs ONLY: x_first_derivative != (mixed partial) * prod(u) where the implementation's value equals
-    sign(prod u) * (finite-difference mixed partial) -- the recorded defect.  Any other x_first_derivative failure (wrong
-    magnitude, nan, other entry point) is a new violation."""
+    sign(prod u) * (closed-form mixed partial), recomputed here by mpmath from the replayed (theta, eta, u), to 1e-9 relative.
+    A wrong magnitude (even by 1e-6), a nan, or another entry point is a new violation."""
     r = v["replay"]
-    if known.get("id") != "F-C11-1" or r.get("kind") != "xfd" or not r.get("equals_signed_mixed_partial"):
+    if known.get("id") != "F-C11-1" or r.get("kind") != "xfd":
         return False
-    xfd, d = r.get("x_first_derivative"), r.get("mixed_partial_fd")
-    u = r.get("u") or []
-    if not (isinstance(xfd, float) and isinstance(d, float) and math.isfinite(xfd) and math.isfinite(d) and u):
+    try:
+        cop, us, xfd = r["copula"], [float(t) for t in r["u"]], float(r["x_first_derivative"])
+        if cop[0] != "clayton" or not math.isfinite(xfd) or any(t == 0 for t in us):
+            return False
+        D = mixed_partial_mp(cop[1], cop[2], us)
+    except Exception:
         return False
-    sgn = math.copysign(1.0, math.prod(u))
-    return abs(xfd - sgn * d) <= 5e-3 * abs(xfd)
+    return abs(xfd - math.copysign(1.0, math.prod(us)) * D) <= 1e-9 * max(abs(D), 1e-300)
 
 
 def replay(path):
@@ -417,7 +439,7 @@ def replay(path):
         if kind == "xfd":
             u = np.array(data["u"], dtype=float)
             xfd = float(cop.x_first_derivative(u))
-            print("x_first_derivative =", xfd, " finite-difference mixed partial =", data["mixed_partial_fd"], " times product =",
+            print("x_first_derivative =", xfd, " closed-form mixed partial =", data.get("mixed_partial"), " times product =",
                   data["mixed_partial_times_product"])
             return 0 if abs(xfd - data["mixed_partial_times_product"]) <= 5e-3 * abs(xfd) else 1
     return 1
